@@ -17,7 +17,7 @@
 #include <stdlib.h>
 
 enum { F_PAGE_RETURNED, F_REALLOC_SMALL_TO_LARGE, F_REALLOC_LARGE_TO_SMALL, F_REALLOC_SHRINK_IN_PLACE, F_REALLOC_WITHIN_BIN, F_CALLOC, F_ALL_BINS,
-       F_LARGE_BLOCKS, F_DRAINED_TO_FIVE_PAGES, F_CROSS_THREAD_RELEASE, F_MANY_PAGES, F_CHUNK_REUSED, F_REALLOC_FROM_NULL, F_REALLOC_TO_ZERO, F_SECOND_INSTANCE };
+       F_LARGE_BLOCKS, F_DRAINED_TO_FIVE_PAGES, F_CROSS_THREAD_RELEASE, F_MANY_PAGES, F_CHUNK_REUSED, F_REALLOC_FROM_NULL, F_REALLOC_TO_ZERO, F_SECOND_INSTANCE, F_HUGE_REQUEST };
 
 #define PAGE 4096u
 
@@ -466,6 +466,191 @@ static void end_checks(struct aws_allocator *sba, size_t max_reserved_seen, cons
 }
 
 /* ================================================================== sequential */
+/* ------------------------------------------------------------------ requests far above the bins (> 2 GiB)
+ * parent allocator: small requests from malloc, big ones as address-space-only mappings; records what it was asked for */
+#include <sys/mman.h>
+#define BIGP_SLOTS 64
+static struct {
+    void *p;
+    size_t size;
+    bool mapped;
+} s_bigp[BIGP_SLOTS];
+static size_t s_bigp_last_size;
+
+static void *bigp_acquire(struct aws_allocator *a, size_t size) {
+    (void)a;
+    s_bigp_last_size = size;
+    for (int i = 0; i < BIGP_SLOTS; ++i) {
+        if (!s_bigp[i].p) {
+            bool mapped = size >= ((size_t)1 << 20);
+            void *p = mapped ? mmap(NULL, size, PROT_READ | PROT_WRITE, MAP_PRIVATE | MAP_ANONYMOUS | MAP_NORESERVE, -1, 0) : malloc(size);
+            if (!p || p == MAP_FAILED) {
+                return NULL;
+            }
+            s_bigp[i].p = p;
+            s_bigp[i].size = size;
+            s_bigp[i].mapped = mapped;
+            return p;
+        }
+    }
+    return NULL;
+}
+
+static void bigp_release(struct aws_allocator *a, void *p) {
+    (void)a;
+    for (int i = 0; p && i < BIGP_SLOTS; ++i) {
+        if (s_bigp[i].p == p) {
+            if (s_bigp[i].mapped) {
+                munmap(p, s_bigp[i].size);
+            } else {
+                free(p);
+            }
+            s_bigp[i].p = NULL;
+            return;
+        }
+    }
+    mon_violation("C03:huge:parent-release-unknown", "the parent allocator was handed %p, which it never returned", p);
+}
+
+static size_t bigp_size_of(const void *p) {
+    for (int i = 0; i < BIGP_SLOTS; ++i) {
+        if (s_bigp[i].p == p) {
+            return s_bigp[i].size;
+        }
+    }
+    return 0;
+}
+
+static int bigp_live(void) {
+    int n = 0;
+    for (int i = 0; i < BIGP_SLOTS; ++i) {
+        n += s_bigp[i].p != NULL;
+    }
+    return n;
+}
+
+static struct aws_allocator s_bigp_alloc = {.mem_acquire = bigp_acquire, .mem_release = bigp_release, .mem_realloc = NULL, .mem_calloc = NULL, .impl = NULL};
+
+static void huge_case(void) {
+    struct mon_rng *r = &mon_case_rng;
+    static const size_t SIZES[] = {((size_t)1 << 31) + 1, (size_t)1 << 31, (size_t)3 << 30, ((size_t)1 << 32) + 100, (size_t)1 << 32, ((size_t)1 << 32) - 1, ((size_t)5 << 30) + 7,
+                                   ((size_t)1 << 31) - 1, ((size_t)1 << 33) + 513};
+    mon_fp(0xB16);
+    memset(s_bigp, 0, sizeof(s_bigp));
+    void *probe = mmap(NULL, ((size_t)1 << 33) + 4096, PROT_READ | PROT_WRITE, MAP_PRIVATE | MAP_ANONYMOUS | MAP_NORESERVE, -1, 0);
+    if (probe == MAP_FAILED) {
+        mon_count("huge_request_skipped_no_address_space", 1);
+        return;
+    }
+    munmap(probe, ((size_t)1 << 33) + 4096);
+    bool mt = mon_chance(r, 1, 2);
+    struct aws_allocator *sba = aws_small_block_allocator_new(&s_bigp_alloc, mt);
+    if (!sba) {
+        mon_violation("C03:new-failed", "aws_small_block_allocator_new returned NULL");
+        return;
+    }
+    int parent0 = bigp_live();
+    uint64_t v0 = mon_violations();
+    /* a few small blocks around it, so that a misplaced huge request has neighbours to hurt */
+    uint8_t *small[6];
+    for (int i = 0; i < 6; ++i) {
+        small[i] = aws_mem_acquire(sba, 24);
+        memset(small[i], 0x40 + i, 24);
+    }
+    size_t active0 = aws_small_block_allocator_bytes_active(sba);
+    for (int k = 0; k < 4 && mon_violations() == v0; ++k) {
+        size_t size = SIZES[mon_below(r, sizeof(SIZES) / sizeof(SIZES[0]))];
+        mon_fp(size);
+        unsigned how = (unsigned)mon_below(r, 3);
+        uint8_t *p = NULL;
+        const char *what;
+        if (how == 0) {
+            what = "acquire";
+            p = aws_mem_acquire(sba, size);
+        } else if (how == 1) {
+            what = "realloc from a 24-byte block";
+            void *q = aws_mem_acquire(sba, 24);
+            memset(q, 0x77, 24);
+            if (aws_mem_realloc(sba, &q, 24, size)) {
+                mon_violation("C03:huge:realloc-failed", "realloc(24 -> %zu) failed", size);
+                break;
+            }
+            p = q;
+            for (int i = 0; p && i < 24; ++i) {
+                if (p[i] != 0x77) {
+                    mon_violation("C03:realloc-contents", "realloc(24 -> %zu): byte %d of the old contents is %02x", size, i, p[i]);
+                    break;
+                }
+            }
+        } else {
+            what = "realloc from NULL";
+            void *q = NULL;
+            if (aws_mem_realloc(sba, &q, 0, size)) {
+                mon_violation("C03:huge:realloc-failed", "realloc(NULL -> %zu) failed", size);
+                break;
+            }
+            p = q;
+        }
+        if (!p) {
+            mon_violation("C03:null-block", "%s(%zu) returned NULL", what, size);
+            break;
+        }
+        size_t got = bigp_size_of(p);
+        if (got < size) {
+            mon_violation("C03:huge:not-from-parent",
+                          "%s of %zu bytes (above the largest bin): the block %p is not a block of at least that size from the parent allocator (parent block size %zu, last "
+                          "request it saw %zu); bytes_active went from %zu to %zu",
+                          what, size, (void *)p, got, s_bigp_last_size, active0, aws_small_block_allocator_bytes_active(sba));
+            break;
+        }
+        p[0] = 0x11;
+        p[size - 1] = 0x22;
+        if (aws_small_block_allocator_bytes_active(sba) != active0) {
+            mon_violation("C03:bytes-active", "a %zu-byte block from the parent changed bytes_active from %zu to %zu", size, active0, aws_small_block_allocator_bytes_active(sba));
+        }
+        if (mon_chance(r, 1, 2)) {
+            /* shrink back into a bin */
+            void *q = p;
+            if (aws_mem_realloc(sba, &q, size, 40)) {
+                mon_violation("C03:huge:realloc-failed", "realloc(%zu -> 40) failed", size);
+                break;
+            }
+            if (((uint8_t *)q)[0] != 0x11) {
+                mon_violation("C03:realloc-contents", "realloc(%zu -> 40) lost the first byte", size);
+            }
+            aws_mem_release(sba, q);
+        } else {
+            aws_mem_release(sba, p);
+        }
+        mon_count("huge_requests_above_2GiB", 1);
+    }
+    for (int i = 0; i < 6; ++i) {
+        for (int b = 0; b < 24; ++b) {
+            if (small[i][b] != 0x40 + i) {
+                mon_violation("C03:contents", "small block %d was overwritten while huge blocks were requested (byte %d is %02x)", i, b, small[i][b]);
+                i = 6;
+                break;
+            }
+        }
+    }
+    for (int i = 0; i < 6; ++i) {
+        aws_mem_release(sba, small[i]);
+    }
+    if (mon_violations() == v0) {
+        if (aws_small_block_allocator_bytes_active(sba) != 0) {
+            mon_violation("C03:bytes-active-after-drain", "everything released but bytes_active = %zu", aws_small_block_allocator_bytes_active(sba));
+        }
+        if (bigp_live() != parent0) {
+            mon_violation("C03:parent-balance", "the parent allocator has %d more blocks outstanding than after creating the allocator", bigp_live() - parent0);
+        }
+        aws_small_block_allocator_destroy(sba);
+        if (bigp_live() != 0) {
+            mon_violation("C03:parent-balance", "after destroy the parent allocator still has %d blocks outstanding", bigp_live());
+        }
+    }
+    mon_flag(F_HUGE_REQUEST);
+}
+
 static void seq_case(void) {
     struct mon_rng *r = &mon_case_rng;
     struct mon_alloc_stats st0;
@@ -821,7 +1006,7 @@ int main(int argc, char **argv) {
     static const char *names[] = {"page_returned_to_os", "realloc_small_to_large", "realloc_large_to_small", "realloc_shrink_in_place", "realloc_within_bin", "calloc",
                                   "all_five_bins_used", "blocks_above_512_from_parent", "drained_to_at_most_five_pages", "block_released_by_another_thread",
                                   "twelve_or_more_pages_reserved", "freed_chunk_reused", "realloc_from_null", "realloc_to_zero",
-                                  "second_single_threaded_instance_alive_during_threaded_phase"};
+                                  "second_single_threaded_instance_alive_during_threaded_phase", "request_above_2GiB_forwarded_to_parent"};
     for (int i = 0; i < (int)(sizeof(names) / sizeof(names[0])); ++i) {
         mon_flag_name(i, names[i]);
     }
@@ -836,7 +1021,11 @@ int main(int argc, char **argv) {
         if (thr) {
             thr_case();
         } else {
-            seq_case();
+            if (c % 64 == 63) {
+                huge_case();
+            } else {
+                seq_case();
+            }
         }
         mon_case_end(mon_flag_count() >= 4);
     }
